@@ -135,7 +135,7 @@ func (si *StructInfo) Sel(i int) string {
 	}
 	return si.Name + "__" + mangle(si.Fields[i].Name)
 }
-func (si *StructInfo) Ctor() string     { return "mk_" + si.Name }
+func (si *StructInfo) Ctor() string { return "mk_" + si.Name }
 func (si *StructInfo) FieldIndex(name string) int {
 	for i, f := range si.Fields {
 		if f.Name == name {
